@@ -77,7 +77,7 @@ End(n) == n.off + n.hl + n.cl                 \* offset just after the node
 ContentStart(n) == n.off + n.hl
 
 (* j is a proper ancestor of i (contains it) *)
-Contains(ns, j, i) == j < i /\ ContentStart(ns[j]) <= ns[i].off /\ End(ns[i]) <= End(ns[j])
+Encloses(ns, j, i) == j < i /\ ContentStart(ns[j]) <= ns[i].off /\ End(ns[i]) <= End(ns[j])
 
 (* the encoded length of node n, re-read from the bytes *)
 EncodedLen(b, n) ==
@@ -95,7 +95,7 @@ WellFormed(b, ns) ==
         IN /\ n.off >= 0 /\ n.tl >= 1 /\ n.hl > n.tl /\ n.cl >= 0
            /\ End(n) <= Len(b)
            /\ EncodedLen(b, n) = n.cl
-           /\ (n.depth = 0 \/ \E j \in 1..(i - 1) : ns[j].depth = n.depth - 1 /\ Contains(ns, j, i))
+           /\ (n.depth = 0 \/ \E j \in 1..(i - 1) : ns[j].depth = n.depth - 1 /\ Encloses(ns, j, i))
            /\ (i > 1 => ns[i - 1].off < n.off)                                 \* preorder
            /\ (n.cons => (n.cl = 0 \/ (i < Len(ns) /\ ns[i + 1].off = ContentStart(n))))
   /\ (ns # <<>> => ns[1].off = 0)
